@@ -142,7 +142,7 @@ pub fn strategy(max_players: usize) -> impl Strategy<Value = Case> {
         }
         let mut players: Vec<(u8, u8)> = vec![];
         let mut i = 0usize;
-        let mut next = |i: &mut usize| {
+        let next = |i: &mut usize| {
             let b = pb[*i % pb.len()];
             *i += 1;
             b
